@@ -286,10 +286,17 @@ func (w *World) runTCaller(ci int) {
 		case "go":
 			c, args, reply := mk("go")
 			c.done = make(chan *rpc.Call, 4)
+			done := c.done
+			if op.NilDone {
+				done = nil // the library allocates the channel
+			}
 			if ts.C != nil {
-				c.call = ts.C.Go(c.Method, args, reply, c.done)
+				c.call = ts.C.Go(c.Method, args, reply, done)
 			} else {
-				c.call = t.Go(addr, c.Method, args, reply, c.done)
+				c.call = t.Go(addr, c.Method, args, reply, done)
+			}
+			if op.NilDone {
+				c.done = c.call.Done
 			}
 			outstanding = append(outstanding, c)
 		case "rt":
@@ -413,6 +420,9 @@ func genTCall(r *simrt.Rand, ns int) Op {
 		op.Flags |= FlSlow
 		op.Arg = uint32(1000 * (1 + r.Intn(3000))) // 1 ms .. 3 s
 	}
+	if op.Kind == "go" && r.Chance(1, 3) {
+		op.NilDone = true
+	}
 	return op
 }
 
@@ -524,6 +534,7 @@ func genC02T(r *simrt.Rand, tier string, idx uint64) *Plan {
 	async := func(a int) Op {
 		op := genTCall(r, ns)
 		op.Kind = []string{"go", "rt", "go", "rt", "call", "ctx"}[r.Intn(6)]
+		op.NilDone = op.Kind == "go" && r.Chance(1, 3)
 		op.Flags, op.Arg = 0, 0
 		if a >= 0 {
 			op.Addr = a
